@@ -176,7 +176,7 @@ func certAcceptorRules(p *engine.Prog, r *engine.Report, rule string) {
 			continue
 		}
 		nSucc++
-		if !engine.OnlyThroughPass(f, ret.Block(), gQ) {
+		if !engine.OnlyThroughPassRet(f, ret, gQ) {
 			okQ = false
 		}
 	}
